@@ -61,6 +61,7 @@ func concApps() []concApp {
 		{"cp", [][]string{{"a", "b"}, {"-R", "-t", "x", "a", "b", "c"}, {"a"}, {"-t=1", "-t=2", "s", "d"}, {"--", "-x", "d"}, {"-h"}},
 			func(out *[]string) *cli.Cli {
 				app := cli.App("cp", "copy")
+				app.Version("V version", "cp 1.0")
 				app.Spec = "[-R] [-t...] SRC... DST"
 				r := app.BoolOpt("R recursive", false, "")
 				t := app.Strings(cli.StringsOpt{Name: "t tag", Value: sharedTags})
@@ -105,6 +106,7 @@ func concApps() []concApp {
 		{"rep", [][]string{{"x"}, {"-a", "-b", "x", "y"}, {"-ab", "-o", "1", "-o2", "x"}, {"-o"}, {"x", "--"}, {"-ba", "--out=3", "--", "-q"}},
 			func(out *[]string) *cli.Cli {
 				app := cli.App("rep", "")
+				app.Version("V version", "rep 2.0")
 				app.Spec = "[-ab] [-o...] X..."
 				a := app.BoolOpt("a", false, "")
 				b := app.BoolOpt("b", false, "")
@@ -121,6 +123,20 @@ func concApps() []concApp {
 				x := app.Strings(cli.StringsArg{Name: "X", Value: nil})
 				app.Spec = "-u [-l...] [X...]"
 				app.Action = func() { *out = append(*out, "ACT", show("u", *u), show("l", *l), show("X", *x)) }
+				return app
+			}},
+		// an option group whose first declared member is satisfied by the environment and absent from the line
+		{"grp", [][]string{{"-ab", "x"}, {"-a", "-b", "x", "y"}, {"-ba"}, {"-abE", "cli", "x"}, {"x"}, {"-q", "-V"}},
+			func(out *[]string) *cli.Cli {
+				app := cli.App("grp", "")
+				app.Version("V version", "grp 3.0")
+				e := app.String(cli.StringOpt{Name: "E env", Value: "dflt", EnvVar: "VERIF_CONC_E"})
+				a := app.BoolOpt("a", false, "")
+				b := app.BoolOpt("b", false, "")
+				qq := app.BoolOpt("q", false, "")
+				x := app.StringsArg("X", nil, "")
+				app.Spec = "[OPTIONS] [X...]"
+				app.Action = func() { *out = append(*out, "ACT", show("E", *e), show("a", *a), show("b", *b), show("q", *qq), show("X", *x)) }
 				return app
 			}},
 		{"lvlflag", [][]string{{"-l", "high"}, {"-l"}, {"-l=true", "x"}, {"x"}}, levelApp("lvlflag", true)},
@@ -144,6 +160,23 @@ func concApps() []concApp {
 
 // concRun builds and runs one application. With envChanges the environment variables the applications read at declaration time
 // are given other values between the declaration and Run (and restored afterwards): the outcome must not depend on them.
+// argument vectors are built once per case and handed to every run of that case (a program's os.Args is one slice too): Run must
+// treat the vector as read-only
+var vecMu sync.Mutex
+var vecs = map[string][]string{}
+
+func vectorOf(a concApp, argv []string) []string {
+	vecMu.Lock()
+	defer vecMu.Unlock()
+	k := a.name + "\x00" + strings.Join(argv, "\x00")
+	if v, ok := vecs[k]; ok {
+		return v
+	}
+	v := append([]string{a.name}, argv...)
+	vecs[k] = v
+	return v
+}
+
 func concRun(a concApp, argv []string, envChanges bool) (res string) {
 	var out []string
 	defer func() {
@@ -168,8 +201,12 @@ func concRun(a concApp, argv []string, envChanges bool) (res string) {
 			os.Unsetenv("VERIF_CONC_U")
 		}()
 	}
-	if err := app.Run(append([]string{a.name}, argv...)); err != nil {
+	vec := vectorOf(a, argv)
+	if err := app.Run(vec); err != nil {
 		out = append(out, "ERR:"+err.Error())
+	}
+	if strings.Join(vec[1:], "\x00") != strings.Join(argv, "\x00") {
+		out = append(out, fmt.Sprintf("ARGUMENT-VECTOR-MODIFIED:%q", vec))
 	}
 	return
 }
